@@ -60,8 +60,22 @@ func (e *emitted) id() string { return e.c.Unit.ID + "x" + e.kind[:1] + e.pkg }
 
 // loadIR re-runs, in process, the part of the pipeline that precedes the
 // jennies: the schemas the jsonschema / openapi jennies were given.
-func loadIR(cfg string) (js, oa ast.Schemas, err error) {
+//
+// pre is the IR as the pipeline loads it (inputs + common passes), BEFORE the
+// compiler passes the two schema languages declare for themselves: those
+// passes (internal/jennies/{jsonschema,openapi}/jennies.go) are part of the
+// emitters, so what they lose is lost by the emitter.
+func loadIR(cfg string) (pre, js, oa ast.Schemas, err error) {
 	p := vx.CatchStack(func() {
+		var pl0 *codegen.Pipeline
+		pl0, err = codegen.PipelineFromFile(cfg, codegen.Parameters(nil))
+		if err != nil {
+			return
+		}
+		pre, err = pl0.LoadSchemas(context.Background())
+		if err != nil {
+			return
+		}
 		for _, lang := range []string{"jsonschema", "openapi"} {
 			var pl *codegen.Pipeline
 			pl, err = codegen.PipelineFromFile(cfg, codegen.Parameters(nil))
@@ -100,6 +114,8 @@ func loadIR(cfg string) (js, oa ast.Schemas, err error) {
 	}
 	return
 }
+
+var dumpMu sync.Mutex
 
 func debugf(format string, a ...any) {
 	if os.Getenv("C12_DEBUG") != "" {
@@ -145,6 +161,14 @@ func main() {
 		detail := map[string]any{"format": c.Format, "schema": c.Schema.String(), "input": c.Unit.Files, "input_yaml": c.Unit.InputYAML}
 		for k, v := range extra {
 			detail[k] = v
+		}
+		if f := os.Getenv("C12_DUMP"); f != "" {
+			dumpMu.Lock()
+			if fh, err := os.OpenFile(f, os.O_APPEND|os.O_CREATE|os.O_WRONLY, 0o644); err == nil {
+				fmt.Fprintf(fh, "%s @ %s\t%s\n", kind, c.Witness(), strings.ReplaceAll(what, "\n", " "))
+				fh.Close()
+			}
+			dumpMu.Unlock()
 		}
 		r.Fail(vx.Failure{
 			Kind:    kind,
@@ -317,10 +341,10 @@ func main() {
 		go func() {
 			defer wg.Done()
 			for c := range ch {
-				irJS, irOA, err := loadIR(filepath.Join(ws.Dir, "in", c.Unit.ID, "pipeline.yaml"))
+				irPre, irJS, irOA, err := loadIR(filepath.Join(ws.Dir, "in", c.Unit.ID, "pipeline.yaml"))
 				if err != nil {
 					bump("blocked: IR not reloadable in process")
-					irJS, irOA = nil, nil
+					irPre, irJS, irOA = nil, nil, nil
 				}
 				for _, d := range byCase[c] {
 					d := d
@@ -373,6 +397,10 @@ func main() {
 					v.All = ir
 					if s, ok := ir.Locate(d.pkg); ok && ir != nil {
 						v.checkSchema(s)
+						if ps, ok := irPre.Locate(d.pkg); ok {
+							v.Pre = irPre
+							v.checkUnions(ps)
+						}
 					} else if ir != nil {
 						vx.Fatalf("package %s of unit %s is not in the reloaded IR", d.pkg, c.Unit.ID)
 					}
